@@ -22,11 +22,20 @@ def check_defined(rep, repo, rule, roots, label):
             n_bad += 1
             rep.fail(rule, f.where, '%s: every local name is bound before it is read' % label, got='%s is read at line %d and bound only further down (UnboundLocalError on the first pass)' % (name, line),
                      want='a binding in front of the first read', construct='unbound local %s in %s' % (name, f.qualname), loc='%s:%d' % (f.relpath, line))
-        for attr, line in lints.never_defined_attributes(repo, f, defs):
+        for cls, attr, line in lints.never_defined_attributes(repo, f, defs):
             n_bad += 1
-            rep.fail(rule, f.where, '%s: every attribute of self that is read is defined somewhere for the class' % label,
-                     got='self.%s is read at line %d; no method of %s assigns it, and nothing assigns .%s on another object (AttributeError)' % (attr, line, f.cls, attr),
-                     want='an assignment of self.%s' % attr, construct='attribute %s.%s never defined' % (f.cls, attr), loc='%s:%d' % (f.relpath, line))
+            rep.fail(rule, f.where, '%s: every attribute that is read is defined somewhere for its class' % label,
+                     got='.%s of a %s object is read at line %d; nothing assigns it on a %s (AttributeError)' % (attr, cls, line, cls),
+                     want='an assignment of %s.%s' % (cls, attr), construct='attribute %s.%s never defined' % (cls, attr), loc='%s:%d' % (f.relpath, line))
+        for name, line in lints.undefined_names(repo, f):
+            n_bad += 1
+            rep.fail(rule, f.where, '%s: every name that is read is bound in the function, in its module or by an import' % label,
+                     got='%s is read at line %d and bound nowhere (NameError)' % (name, line), want='a binding of %s' % name, construct='undefined name %s in %s' % (name, f.qualname),
+                     loc='%s:%d' % (f.relpath, line))
+        for line, test in lints.stuck_loops(f):
+            n_bad += 1
+            rep.fail(rule, f.where, '%s: every loop makes progress' % label, got='while %s: the body changes none of the names the test reads (the loop never ends)' % test,
+                     want='the loop counter is advanced', construct='loop without progress in %s' % f.qualname, loc='%s:%d' % (f.relpath, line))
     if not n_bad:
         rep.ok(rule, roots[0].where if roots else '-', '%s: no read of an unbound local or of a never-defined attribute in %d functions' % (label, len(slice_)), got='%d functions' % len(slice_))
     rep.count('defined_slice_functions', len(slice_))
